@@ -430,7 +430,8 @@ Definition sset (w : which) (sy : sysfiles) (e : ent) : sysfiles :=
   | WSpan => mkSys (s_content sy) (s_control sy) (Some e) (s_rtable sy) (e :: s_extra sy)
   | WRt => mkSys (s_content sy) (s_control sy) (s_spaninfo sy) (Some e) (e :: s_extra sy)
   end.
-Record dstate := mkD { d_lzx : option (Lzx.lst * option ist); d_offset : N; d_length : Z }.
+(* d_hint: the output length lzxd_init was given (lzx->length) *)
+Record dstate := mkD { d_lzx : option (Lzx.lst * option ist); d_offset : N; d_length : Z; d_hint : N }.
 Record sess := mkS { ss_sys : sysfiles; ss_d : option dstate; ss_cache : cache }.
 
 Definition eqb_list (a b : list N) : bool := (len a =? len b) && forallb (fun p => fst p =? snd p) (combine a b).
@@ -542,7 +543,7 @@ Definition init_decomp (sy : sysfiles) (foff : N) : N * sysfiles * option dstate
             else
               let inoff := (h_sec0_offset h + Z.of_N (e_off content) + offset)%Z in
               let inp := if (inoff <? 0)%Z then None else Some {| irest := sub file (Z.to_N inoff) (len file) ++ pad EofPad2; iout := [] |} in
-              (selferr, sy4, Some (mkD (Some (Lzx.lzx_init wb (Z.to_N (cdiv ri 32768)) (Z.to_N rem) false [], inp)) (Z.to_N doff) length)) in
+              (selferr, sy4, Some (mkD (Some (Lzx.lzx_init wb (Z.to_N (cdiv ri 32768)) false [], inp)) (Z.to_N doff) length (Z.to_N rem))) in
           match rt with
           | Some (length, offset) => fin sy3 se2 entry (Z.land (length + ri - 1) (- ri))%Z offset
           | None =>
@@ -568,7 +569,7 @@ Definition extract (s : sess) (sec off ln : N) : N * list N * sess :=
     let need_init := match ss_d s with Some d => match d_lzx d with Some _ => off <? d_offset d | None => true end | None => true end in
     let '(e0, sy, d0) := if need_init then init_decomp (ss_sys s) off else (0, ss_sys s, ss_d s) in
     match d0 with
-    | None => (e0, [], mkS sy (match ss_d s with Some d => Some (mkD None (d_offset d) (d_length d)) | None => None end) (ss_cache s))
+    | None => (e0, [], mkS sy (match ss_d s with Some d => Some (mkD None (d_offset d) (d_length d) (d_hint d)) | None => None end) (ss_cache s))
     | Some d =>
       if negb (e0 =? 0) then (e0, [], mkS sy (Some d) (ss_cache s)) else
       if (d_length d <? Z.of_N off)%Z then (MSPACK_ERR_DECRUNCH, [], mkS sy (Some d) (ss_cache s)) else
@@ -577,18 +578,18 @@ Definition extract (s : sess) (sec off ln : N) : N * list N * sess :=
       | Some (lz, None) => (MSPACK_ERR_SEEK, [], mkS sy (Some d) (ss_cache s))
       | Some (lz, Some inp) =>
         let skip := off - d_offset d in
-        let '(e1, lz1, inp1) := if skip =? 0 then (0, lz, inp) else Lzx.lzx_call lz inp skip in
+        let '(e1, lz1, inp1) := if skip =? 0 then (0, lz, inp) else Lzx.lzx_call (d_hint d) lz inp skip in
         let written1 := len (iout inp1) in
         let inp1' := {| irest := irest inp1; iout := [] |} in
-        if negb (e1 =? 0) then (e1, [], mkS sy (Some (mkD None (d_offset d + written1) (d_length d))) (ss_cache s)) else
+        if negb (e1 =? 0) then (e1, [], mkS sy (Some (mkD None (d_offset d + written1) (d_length d) (d_hint d))) (ss_cache s)) else
         let maxlen := (d_length d - Z.of_N off)%Z in
         let length := if (maxlen <? Z.of_N ln)%Z then Z.to_N (maxlen + 1) else ln in
-        let '(e2, lz2, inp2) := Lzx.lzx_call lz1 inp1' length in
+        let '(e2, lz2, inp2) := Lzx.lzx_call (d_hint d) lz1 inp1' length in
         let out := rev_append (iout inp2) [] in
         let doff := d_offset d + written1 + len out in
         let inp2' := {| irest := irest inp2; iout := [] |} in
-        if negb (e2 =? 0) then (e2, out, mkS sy (Some (mkD None doff (d_length d))) (ss_cache s))
-        else (0, out, mkS sy (Some (mkD (Some (lz2, Some inp2')) doff (d_length d))) (ss_cache s))
+        if negb (e2 =? 0) then (e2, out, mkS sy (Some (mkD None doff (d_length d) (d_hint d))) (ss_cache s))
+        else (0, out, mkS sy (Some (mkD (Some (lz2, Some inp2')) doff (d_length d) (d_hint d))) (ss_cache s))
       end
     end.
 End Ext.
